@@ -306,14 +306,22 @@ def alias_e2e(binpath, res, seed, n):
     pool = ["ed2", "ed3", "edp1", "ec-b", "rsa-2048-a"]
     for i in range(n):
         k1, k2 = rng.sample(pool, 2)
-        mode = rng.choice(["control", "sig_labelled_k1", "honest_label_k2", "inner_keyid_lies", "table_has_both", "both_authorised"])
+        mode = rng.choice(["control", "sig_labelled_k1", "honest_label_k2", "inner_keyid_lies", "table_has_both", "both_authorised",
+                           "unknown_key_next_to_known", "unknown_key_next_to_known"])
         step = scen.mk_step("build", 1, [W.kid(k1)], [], [["ALLOW", "*"]], [["ALLOW", "*"]])
         if mode == "both_authorised":
             # K1 and K2 are both functionaries of a threshold-2 step; only K2 signs.  The file named for K1 carries K2's
             # signature once under K1's label and once under K2's own: nothing may be checked against, or counted for, K1
             step = scen.mk_step("build", 2, [W.kid(k1), W.kid(k2)], [], [["ALLOW", "*"]], [["ALLOW", "*"]])
         pub2 = W.pub(k2)
-        if mode == "control":
+        if mode == "unknown_key_next_to_known":
+            # K1 and K2 are functionaries of a threshold-1 step; K1's key is filed under a foreign identifier in the table (and
+            # therefore unknown after reading), K2's is fine.  The file named for K1 carries K2's signature plus a worthless
+            # entry attributed to K1; K2's own file is badly signed: nothing attributed to K1 is checked against K2's key
+            step = scen.mk_step("build", 1, [W.kid(k1), W.kid(k2)], [], [["ALLOW", "*"]], [["ALLOW", "*"]])
+        if mode == "unknown_key_next_to_known":
+            table = {rng.choice(["ab" * 32, W.kid("ed0")]): W.pub(k1), W.kid(k2): W.pub(k2)}
+        elif mode == "control":
             table = {W.kid(k1): W.pub(k1)}
         elif mode == "inner_keyid_lies":
             pub2["keyid"] = W.kid(k1)
@@ -340,6 +348,14 @@ def alias_e2e(binpath, res, seed, n):
         else:
             fname = f"build.{W.pfx(k1)}.link"
         files = {fname: scen.dumps(link)}
+        if mode == "unknown_key_next_to_known":
+            own = copy.deepcopy(link)
+            s2 = own["signatures"][0]
+            link["signatures"] = rng.choice([[{"keyid": W.kid(k1), "sig": "00" * 64}, s2], [s2, {"keyid": W.kid(k1), "sig": "00" * 64}],
+                                             [{"keyid": W.kid(k1), "sig": s2["sig"]}]])
+            bad = copy.deepcopy(own)
+            bad["signatures"][0]["sig"] = bad["signatures"][0]["sig"][:-2] + ("00" if bad["signatures"][0]["sig"][-2:] != "00" else "01")
+            files = {f"build.{W.pfx(k1)}.link": scen.dumps(link), f"build.{W.pfx(k2)}.link": scen.dumps(bad)}
         if mode == "both_authorised":
             own = copy.deepcopy(link)
             s2 = own["signatures"][0]
@@ -492,7 +508,7 @@ def main(ctx):
              "each hash-algorithm-list variant; random layout key tables with entries filed under own/another/random/short "
              "ids; end-to-end aliasing scenarios; every case non-trivial; distinct by key material / document",
         assumptions=["OpenSSL's SubjectPublicKeyInfo encodings are the standards-conformant reference", "olpc_canon + SHA-256 (Python) is the independent key-id computation"],
-        required=["keytype:ed25519", "keytype:ecdsa", "keytype:rsa", "path:ed25519:spki", "path:ed25519:pk8", "path:ecdsa:spki",
+        required=["alias_e2e:unknown_key_next_to_known", "keytype:ed25519", "keytype:ecdsa", "keytype:rsa", "path:ed25519:spki", "path:ed25519:pk8", "path:ecdsa:spki",
                   "path:rsa:pem", "path:rsa:json", "spki_reexport_identical:rsa", "spki_reexport_identical:ed25519",
                   "spki_reexport_identical:ecdsa", "key_table:parsed", "alias_e2e:control", "alias_e2e:sig_labelled_k1", "alias_e2e:both_authorised", "alias_e2e:in_memory:control", "alias_e2e:in_memory:swapped_table_relabelled_link", "attribution:control", "attribution:control_alt", "attribution:labelled_other_key",
                   "attribution:labelled_other_key_both_authorised", "attribution:labelled_other_description",
